@@ -294,18 +294,19 @@ def cli_leg(run, cases, thorough):
         for i, k in enumerate(plan):
             if k == "ok":
                 a, b = lines[i].split(" + ")
-                want.append(("ok", "%d (dimensionless)" % (int(a) + int(b))))
+                want.append(("ok", [str(int(a) + int(b))]))
             elif k == "overrun":
-                want.append(("timeout", "Timed out"))
+                want.append(("timeout", ["timed out", "timeout", "time limit"]))      # wording is free, the cause must be named
             elif k == "oom":
-                want.append(("crashed", "Child process crashed"))
+                want.append(("crashed", ["crash", "memory", "killed", "abort"]))
             else:
-                want.append(("big", "Units for m (length)"))
-        want.append(("ok", "42 (dimensionless)"))
+                want.append(("big", ["meter", "units for"]))
+        want.append(("ok", ["42"]))
         # one answer per request, in order: find each expected answer after the previous one
         pos, okk = 0, True
-        for cls, needle in want:
-            hit = next((j for j in range(pos, len(out)) if needle in out[j]), None)
+        for cls, needles in want:
+            hit = next((j for j in range(pos, len(out)) if any(n in out[j].lower() for n in needles)
+                        and (cls != "ok" or not any(w in out[j].lower() for w in ("crash", "timed out", "error")))), None)
             if hit is None:
                 okk = False
                 break
@@ -313,7 +314,7 @@ def cli_leg(run, cases, thorough):
         if not okk or rc != 0:
             nbad += 1
             run.violation({"engine": "cli-sandbox", "plan": list(plan), "lines": lines, "rc": rc},
-                          {"answers_in_order": [w[1] for w in want]}, {"stdout": out[-12:]}, "cli-sandbox")
+                          {"answers_in_order": [w[0] + ": " + "|".join(w[1]) for w in want]}, {"stdout": out[-12:]}, "cli-sandbox")
     shutil.rmtree(root, ignore_errors=True)
     run.note("cli_sequences", len(plans))
     if plans:
